@@ -24,6 +24,22 @@ def register(gt):
             m.MAGIC_START_BYTES = saved
         out += "Definition magic_of_network : list (bytes * bytes) :=\n  %s.\n" % gt.coq_list(
             "(%s, %s)" % (gt.coq_string_bytes(n), gt.coq_bytes(v)) for n, v in pairs)
+        # the global after REFUSED selections (unknown name, empty name, a non-string): must still be what it was
+        after = saved
+        try:
+            for bad in ("main", "", "bitcoin", None, 5):
+                try:
+                    m.set_magic_start_bytes(bad)
+                    raise AssertionError("set_magic_start_bytes(%r) was not refused" % (bad,))
+                except (ValueError, AttributeError, TypeError):
+                    pass
+                after = m.MAGIC_START_BYTES
+                if after != saved:
+                    break
+        finally:
+            m.MAGIC_START_BYTES = saved
+        assert isinstance(after, bytes), "MAGIC_START_BYTES after a refused set_magic_start_bytes is %r" % (after,)
+        out += "Definition magic_after_refused_select : bytes := %s.\n" % gt.coq_bytes(after)
         assert isinstance(saved, bytes), "MAGIC_START_BYTES after import is %r" % (saved,)
         out += "Definition magic_default : bytes := %s.\n" % gt.coq_bytes(saved)
         for name, attr in (("msg_header_len", "MSG_HEADER_LEN"), ("max_size", "MAX_SIZE"),
